@@ -31,16 +31,16 @@ class Giant:
 
 
 # ------------------------------------------------------------------------------------------------ QCOW2
-def giant_qcow2(rng, dense):
+def giant_qcow2(rng, dense, cb=16):
     from dissect.hypervisor.disk.qcow2 import QCow2
-    cb = rng.choice([16, 21])
     cs = 1 << cb
     l2n = cs // 8
     size = 64 << 40
     nc = size // cs
     nl1 = -(-nc // l2n)
     # allocate a handful of clusters far apart (dense: many more in the same tables and other tables)
-    picks = sorted({0, 1, l2n - 1, l2n, nc // 2 + 7, nc - 1} | ({rng.randrange(nc) for _ in range(400)} if dense else set()))
+    hole_table = (nc // 3) // l2n   # the table covering the probed hole stays absent in the dense twin too
+    picks = sorted({0, 1, l2n - 1, l2n, nc // 2 + 7, nc - 1} | ({c for c in (rng.randrange(nc) for _ in range(400)) if c // l2n != hole_table} if dense else set()))
     l1_off = 3 * cs
     l1_bytes = nl1 * 8
     tab_base = (1 << 41) // cs + 11        # L2 tables beyond 2 TiB
@@ -93,7 +93,7 @@ def giant_qcow2(rng, dense):
         probes.append((o, n, patterns.pat(0, dpos[c] * cs + (o - c * cs), n)))
     probes.append(((nc // 3) * cs + 12345, 8000, bytes(8000)))  # unallocated: zeros, no table at all
     meta = len(hdr) + l1_bytes + len(tables) * cs
-    return Giant("qcow2", [vf], lambda: QCow2(vf), size, probes, meta, note={"cluster_bits": cb, "tables": len(tables), "l1_bytes": l1_bytes})
+    return Giant(f"qcow2-cb{cb}", [vf], lambda: QCow2(vf), size, probes, meta, note={"cluster_bits": cb, "tables": len(tables), "l1_bytes": l1_bytes})
 
 
 # ------------------------------------------------------------------------------------------------ VMDK
@@ -105,7 +105,7 @@ def giant_vmdk_se(rng, dense):
     cap = (20 << 40) // 512                     # 20 TiB
     ng = cap // grain
     ngd = -(-cap // (gtes * grain))
-    picks = sorted({0, 5, gtes, ng // 2, ng - 1} | ({rng.randrange(ng) for _ in range(300)} if dense else set()))
+    picks = sorted({0, 5, gtes, ng // 2, ng - 1} | ({g for g in (rng.randrange(ng) for _ in range(300)) if g // gtes != (ng // 3) // gtes} if dense else set()))
     pos_base = (1 << 33)                         # cluster index >= 2^33: grains beyond sector 2^36
     pos = {g: pos_base + (len(picks) - k) * 3 for k, g in enumerate(picks)}
     tabs = sorted({g // gtes for g in picks})
@@ -324,7 +324,11 @@ def giant_hds(rng, dense):
     return Giant(f"hds-v{ver}", [vf], lambda: HDS(vf), size, probes, meta, note={"clusters": n, "ver": ver})
 
 
-BUILDERS = [giant_qcow2, giant_vmdk_se, giant_vmdk_hosted, giant_vhdx, giant_vhd, giant_vdi, giant_hds]
+def giant_qcow2_2m(rng, dense):
+    return giant_qcow2(rng, dense, cb=21)
+
+
+BUILDERS = [giant_qcow2, giant_qcow2_2m, giant_vmdk_se, giant_vmdk_hosted, giant_vhdx, giant_vhd, giant_vdi, giant_hds]
 
 
 def measure(g):
